@@ -34,6 +34,9 @@ PROPS = {
     "C12": P(12, "exploration",
              quick=dict(checks=3000, timeout=600),
              thorough=dict(checks=30000, shards=8, timeout=1800)),
+    "C13": P(13, "exploration",
+             quick=dict(checks=250, timeout=900, shrinktime="15s"),
+             thorough=dict(checks=2500, shards=6, timeout=3000)),
     "C19": P(19, "exploration",
              quick=dict(checks=3000, timeout=300),
              thorough=dict(checks=40000, shards=4, timeout=900)),
